@@ -1228,6 +1228,27 @@ Proof.
   cbn [map concat]. rewrite <- app_assoc. cbn [app]. rewrite split_lines_aux_line by assumption. rewrite IH. reflexivity.
 Qed.
 
+Definition one_line (x : bytes) : list bytes := match x with [] => [] | c :: r => [c :: r] end.
+Lemma split_lines_aux_end : forall x cur, ~ In c_nl x -> split_lines_aux cur x = one_line (rev cur ++ x).
+Proof.
+  induction x as [|c x IH]; intros cur H; cbn [split_lines_aux].
+  - rewrite app_nil_r, frev_rev. destruct cur as [|a cur]; [reflexivity|]. destruct (rev (a :: cur)) eqn:E; [|reflexivity].
+    apply (f_equal (@rev _)) in E. rewrite rev_involutive in E. discriminate.
+  - destruct (c =? c_nl) eqn:E; [exfalso; apply H; left; apply N.eqb_eq; assumption|].
+    rewrite IH by (intros Hin; apply H; right; assumption). cbn [rev]. rewrite <- app_assoc. reflexivity.
+Qed.
+
+Theorem content_lines_join_open ls x : Forall (fun l => ~ In c_nl l) ls -> ~ In c_nl x ->
+  content_lines (join_lines ls ++ x) = flat_map line_content (ls ++ [x]).
+Proof.
+  intros H Hx. unfold content_lines, split_lines, join_lines.
+  assert (E : forall cur, cur = [] -> split_lines_aux cur (concat (map (fun l => l ++ [c_nl]) ls) ++ x) = ls ++ one_line x).
+  { induction H as [|l ls Hl Hls IH]; intros cur ->.
+    - cbn [map concat app]. rewrite split_lines_aux_end by assumption. reflexivity.
+    - cbn [map concat]. rewrite <- !app_assoc. cbn [app]. rewrite split_lines_aux_line by assumption. rewrite IH by reflexivity. reflexivity. }
+  rewrite (E [] eq_refl), !flat_map_app. f_equal. destruct x; [reflexivity|]. reflexivity.
+Qed.
+
 Theorem content_lines_join ls : Forall (fun l => ~ In c_nl l) ls -> content_lines (join_lines ls) = flat_map line_content ls.
 Proof. intros H. unfold content_lines. rewrite split_lines_join by assumption. reflexivity. Qed.
 
@@ -1255,6 +1276,131 @@ Proof.
   induction d as [|n d IH]; [reflexivity|]. cbn [flat_map]. rewrite tokens_of_app, <- app_assoc, node_balanced. exact IH.
 Qed.
 
+
+(* ------------------------------------------------------------------------------------------- *)
+(* text runs written as grammar lines *)
+Lemma gline_no_nl g : gline_ok g -> ~ In c_nl (gline_bytes g).
+Proof.
+  destruct g as [w0 k w1 w2 v w3|w rest|w]; cbn [gline_ok gline_bytes].
+  - intros (B0 & B1 & B2 & B3 & HK & HV). apply (kv_line_read w0 k w1 w2 v w3); assumption.
+  - intros [Bw Hr] Hin. apply in_app_or in Hin. destruct Hin as [Hin|[Hin|Hin]]; [|discriminate|contradiction].
+    apply (blanks_notin w c_nl Bw); auto.
+  - intros Bw. apply (blanks_notin w c_nl Bw). auto.
+Qed.
+
+Lemma gline_content g : gline_ok g -> line_content (gline_bytes g) = gline_text g.
+Proof.
+  unfold line_content. destruct g as [w0 k w1 w2 v w3|w rest|w]; cbn [gline_ok gline_bytes gline_text].
+  - intros (B0 & B1 & B2 & B3 & HK & HV). destruct (kv_line_read w0 k w1 w2 v w3) as (-> & _); auto.
+  - intros [Bw _]. rewrite comment_line_read by assumption. reflexivity.
+  - intros Bw. rewrite blank_line_read by assumption. reflexivity.
+Qed.
+
+Theorem glines_read ls : Forall gline_ok ls ->
+  content_lines (glines_text ls) = flat_map gline_text ls /\ map line_kv (flat_map gline_text ls) = flat_map gline_kv ls.
+Proof.
+  intros H. split.
+  - unfold glines_text. rewrite content_lines_join.
+    + induction H as [|g ls Hg Hls IH]; [reflexivity|]. cbn [map flat_map]. rewrite gline_content by assumption. rewrite IH. reflexivity.
+    + apply Forall_forall. intros l Hl. apply in_map_iff in Hl. destruct Hl as (g & <- & Hg). rewrite Forall_forall in H. apply gline_no_nl. auto.
+  - induction H as [|g ls Hg Hls IH]; [reflexivity|]. cbn [flat_map]. rewrite map_app, IH. f_equal.
+    destruct g as [w0 k w1 w2 v w3|w rest|w]; try reflexivity. cbn [gline_text gline_kv map].
+    destruct Hg as (B0 & B1 & B2 & B3 & HK & HV). destruct (kv_line_read w0 k w1 w2 v w3) as (_ & -> & _); auto.
+Qed.
+
+Lemma removelast_last_forall {A} (P : A -> Prop) (l : list A) d : Forall P l -> P d -> Forall P (removelast l) /\ P (last l d).
+Proof.
+  induction 1 as [|x l Hx Hl IH]; intros Hd; [split; [constructor|assumption]|].
+  destruct l as [|y l]; [split; [constructor|assumption]|]. destruct (IH Hd) as [I1 I2]. split; [constructor; assumption|assumption].
+Qed.
+
+Lemma flat_content ls : Forall gline_ok ls -> flat_map line_content (map gline_bytes ls) = flat_map gline_text ls.
+Proof.
+  induction 1 as [|g ls Hg Hls IH]; [reflexivity|]. cbn [map flat_map]. rewrite gline_content by assumption. rewrite IH. reflexivity.
+Qed.
+
+Theorem gtext_read ls b : Forall gline_ok ls -> content_lines (gtext ls b) = flat_map gline_text ls.
+Proof.
+  intros H. destruct b; [apply (glines_read ls H)|]. unfold gtext, glines_text_open.
+  destruct (removelast_last_forall gline_ok ls (GBlank []) H) as [H1 H2]; [constructor|].
+  rewrite content_lines_join_open.
+  - destruct ls as [|g0 ls0]; [reflexivity|].
+    rewrite <- (flat_content (g0 :: ls0) H). rewrite (app_removelast_last (GBlank []) (l:=g0 :: ls0)) at 3 by discriminate.
+    rewrite map_app. reflexivity.
+  - apply Forall_forall. intros l Hl. apply in_map_iff in Hl. destruct Hl as (g & <- & Hg). rewrite Forall_forall in H1. apply gline_no_nl. auto.
+  - apply gline_no_nl. assumption.
+Qed.
+
+Lemma lines_of_map K ls : lines_of (map (EvLine K) ls) K = ls.
+Proof. induction ls as [|l ls IH]; [reflexivity|]. cbn. rewrite key_eqb_refl. cbn. f_equal. exact IH. Qed.
+
+(* the values assigned to a key by a text run are those of its key = value lines with that key, in order *)
+Theorem glines_assigns K k ls b : Forall gline_ok ls ->
+  lines_of (map (EvLine K) (content_lines (gtext ls b))) K = flat_map gline_text ls /\
+  assigns (map (EvLine K) (content_lines (gtext ls b))) K k = flat_map (gline_val k) ls.
+Proof.
+  intros H. pose proof (gtext_read ls b H) as E. unfold assigns. rewrite E, lines_of_map. split; [reflexivity|].
+  clear E. induction H as [|g ls Hg Hls IH]; [reflexivity|]. cbn [flat_map]. rewrite filter_app, map_app.
+  rewrite IH. f_equal.
+  destruct g as [w0 k' w1 w2 v w3|w rest|w]; try reflexivity. cbn [gline_text gline_val filter].
+  destruct Hg as (B0 & B1 & B2 & B3 & HK & HV). destruct (kv_line_read w0 k' w1 w2 v w3) as (_ & E2 & _); auto.
+  unfold key_of_line. rewrite E2. cbn [fst]. destruct (bytes_eqb k' k); [|reflexivity].
+  cbn [map]. unfold value_of_line. rewrite E2. reflexivity.
+Qed.
+
+Lemma lines_of_map_other stk K ls : key_eqb stk K = false -> lines_of (map (EvLine stk) ls) K = [].
+Proof. intros E. induction ls as [|l ls IH]; [reflexivity|]. cbn. rewrite E. exact IH. Qed.
+
+Section GrammarProofs.
+  Variable dec : list atom -> list gline * bool.
+
+  Lemma grammar_events : forall ps stk K k, grammar_text dec ps ->
+    lines_of (events (tokens_of ps) stk) K = glines dec ps stk K /\
+    assigns (events (tokens_of ps) stk) K k = gassigns dec ps stk K k.
+  Proof.
+    induction ps as [|pc ps IH]; intros stk K k HG; [split; reflexivity|].
+    assert (HG' : grammar_text dec ps) by (intros l Hl; apply HG; right; assumption).
+    change (tokens_of (pc :: ps)) with (piece_tokens pc ++ tokens_of ps).
+    destruct pc as [l|n ws|n ws|n ws]; cbn [piece_tokens app events gassigns glines tl].
+    - destruct (HG l (or_introl eq_refl)) as [Hok Htx]. rewrite lines_of_app, assigns_app, Htx.
+      destruct (IH stk K k HG') as [-> ->]. destruct (key_eqb stk K) eqn:E.
+      + apply key_eqb_eq in E. subst K. destruct (glines_assigns stk k (fst (dec l)) (snd (dec l)) Hok) as [-> ->]. split; reflexivity.
+      + unfold assigns. rewrite lines_of_map_other by assumption. split; reflexivity.
+    - apply (IH (n :: stk) K k HG').
+    - apply (IH (tl stk) K k HG').
+    - apply (IH stk K k HG').
+  Qed.
+
+  (* end to end, in the grammar's terms: the document is accepted; /path<key> is the value of the last
+     key = value line with that key in the domains of that path; the lines are the written lines *)
+  Theorem grammar_value ps v k :
+    doc_ok ps -> short_lines (tokens_of ps) -> no_clobber (piece_events ps) -> grammar_text dec ps ->
+    Forall path_name v -> path_key k -> gassigns dec ps [root_name] (key_of_vec v) k <> [] ->
+    exists t, parse (render ps) = Ok t /\
+      let x := last (gassigns dec ps [root_name] (key_of_vec v) k) [] in
+      (forall d, get_string_def t (path_string v (Some k)) d = Ok x) /\
+      (forall d, get_int_def t (path_string v (Some k)) d = Ok (match atoi x with Some z => z | None => d end)) /\
+      (forall d, get_int32_def t (path_string v (Some k)) d = Ok (match atoi32 x with Some z => z | None => d end)) /\
+      (forall d, get_bool_def t (path_string v (Some k)) d = Ok (match parse_bool x with Some b => b | None => d end)).
+  Proof.
+    intros HD HS NC HG HV HK HA.
+    destruct (rendered_represented ps HD HS NC) as (t & Hp & R). exists t. split; [exact Hp|].
+    destruct (grammar_events ps [root_name] (key_of_vec v) k HG) as [_ EA]. fold (piece_events ps) in EA. rewrite <- EA in *.
+    assert (Hk : k <> []) by (destruct HK as (_ & _ & (c & r & -> & _) & _); discriminate).
+    apply (value_exact t _ R _ _ (analysis_path_key v k HV HK) v k eq_refl Hk HA).
+  Qed.
+
+  Theorem grammar_lines ps v :
+    doc_ok ps -> short_lines (tokens_of ps) -> no_clobber (piece_events ps) -> grammar_text dec ps ->
+    Forall path_name v -> live (piece_events ps) (key_of_vec v) ->
+    exists t, parse (render ps) = Ok t /\ get_domain_line t (path_string v None) = Ok (glines dec ps [root_name] (key_of_vec v)).
+  Proof.
+    intros HD HS NC HG HV HL.
+    destruct (rendered_represented ps HD HS NC) as (t & Hp & R). exists t. split; [exact Hp|].
+    destruct (grammar_events ps [root_name] (key_of_vec v) [] HG) as [EL _]. fold (piece_events ps) in EL. rewrite <- EL.
+    apply (lines_exact t _ R _ _ (analysis_path_domain v HV) HL).
+  Qed.
+End GrammarProofs.
 
 (* ------------------------------------------------------------------------------------------- *)
 (* a concrete document satisfying every hypothesis of the theorems above, and the theorems applied to it *)
@@ -1325,4 +1471,47 @@ Proof.
     + exists (raw "tars.tarsregistry.QueryObj@tcp -h 10.0.0.1 -p 1789"%hex), 48. split; reflexivity.
     + intros HH; vm_compute in HH; repeat (destruct HH as [HH|HH]; [discriminate|]); contradiction.
     + intros HH; vm_compute in HH; repeat (destruct HH as [HH|HH]; [discriminate|]); contradiction.
+Qed.
+
+(* the same document read as grammar lines *)
+Definition ex_dec (l : list atom) : list gline * bool :=
+  if (length l =? 5)%nat then ([GKV [] (raw "top"%hex) [] [] (raw "1"%hex) []], false)
+  else ([GKV [32] (raw "k"%hex) [32] [32] (raw "v1"%hex) [32]; GComment [] (raw "c"%hex);
+         GKV [] (raw "k"%hex) [] [] (raw "a&b=c ]>"%hex) []], true).
+
+Ltac notin := intros HH; vm_compute in HH; repeat (destruct HH as [HH|HH]; [discriminate HH|]); contradiction.
+Ltac edges a b c d := split; [exists a, b; split; reflexivity | exists c, d; split; reflexivity].
+
+Ltac bl := unfold blanks; solve [repeat (apply Forall_cons; [split; [reflexivity|discriminate]|]); apply Forall_nil].
+Ltac ckey a b c d := split; [edges a b c d|repeat split; try notin; discriminate].
+Ltac cval a b c d := right; split; [edges a b c d|split; notin].
+
+Ltac evalfst := match goal with |- Forall _ ?x => let y := eval vm_compute in x in change x with y end.
+
+Example ex_grammar_text : grammar_text ex_dec ex_doc.
+Proof.
+  intros l Hl. vm_compute in Hl.
+  repeat (destruct Hl as [Hl|Hl]; [first [discriminate Hl | injection Hl as <-]|]); try contradiction.
+  - split; [|reflexivity]. evalfst. apply Forall_cons; [|apply Forall_cons; [|apply Forall_cons; [|apply Forall_nil]]].
+    + repeat (split; [bl|]). split; [ckey 107 (@nil N) (@nil N) 107 | cval 118 [49] [118] 49].
+    + split; [bl|notin].
+    + repeat (split; [bl|]). split; [ckey 107 (@nil N) (@nil N) 107 | cval 97 (raw "&b=c ]>"%hex) (raw "a&b=c ]"%hex) 62].
+  - split; [|reflexivity]. evalfst. apply Forall_cons; [|apply Forall_nil].
+    repeat (split; [bl|]). split; [ckey 116 (raw "op"%hex) (raw "to"%hex) 112 | cval 49 (@nil N) (@nil N) 49].
+Qed.
+
+Example ex_grammar_value : exists t, parse (render ex_doc) = Ok t /\
+  get_string_def t (path_string [raw "a"%hex] (Some (raw "k"%hex))) [] = Ok (raw "a&b=c ]>"%hex) /\
+  get_int32_def t (path_string [] (Some (raw "top"%hex))) 5%Z = Ok 1%Z.
+Proof.
+  destruct (grammar_value ex_dec ex_doc [raw "a"%hex] (raw "k"%hex) ex_doc_ok ex_short ex_no_clobber ex_grammar_text) as (t & Hp & H1 & _).
+  - repeat constructor; try discriminate; notin.
+  - repeat split; try notin; [exists 107, []|exists [], 107]; split; try reflexivity; discriminate.
+  - vm_compute. discriminate.
+  - exists t. split; [exact Hp|]. split; [rewrite H1; vm_compute; reflexivity|].
+    destruct (grammar_value ex_dec ex_doc [] (raw "top"%hex) ex_doc_ok ex_short ex_no_clobber ex_grammar_text) as (t' & Hp' & _ & _ & H3 & _).
+    + constructor.
+    + repeat split; try notin; [exists 116, (raw "op"%hex)|exists (raw "to"%hex), 112]; split; try reflexivity; discriminate.
+    + vm_compute. discriminate.
+    + rewrite Hp in Hp'. injection Hp' as <-. rewrite H3. vm_compute. reflexivity.
 Qed.
